@@ -222,7 +222,8 @@ def rule_row_order(ctx):
 def rule_field_names(ctx):
     model = ctx.model
     ctx.res.minimum("O9.3", 1)
-    names = ["a", "A", "a1", "a_b", "customer_id", "_a", "1a", "a-b", "a b", "a.b", "", "  ", " a ", "class", "None", "for", "ä", "aä", "a$", "Z9_"]
+    names = ["a", "A", "a1", "a_b", "customer_id", "_a", "1a", "a-b", "a b", "a.b", "", "  ", " a ", "class", "None", "for", "ä", "aä", "a$", "Z9_",
+             " class ", "for ", "\tNone", " a1 ", "Class", "a__", "a\n", "é1"]
 
     def cell(ch):
         name = ch.choose("name", names)
